@@ -190,6 +190,90 @@ def make_args(case, cap):
                                  mi_stratified_sampling_ratio=1.0)
 
 
+def evaluate_refmodel(ctx: Ctx, cases):
+    """a prior heuristic with a reference model (`--reference_model_JSON`): the pairs that involve a feature of the reference model
+    are NOT candidates; everything else is as always – min(cap, #candidates) pairs are scored per batch, only candidates, and the
+    sampler's counters report exactly the pairs that were scored (they drive the rotation over batches).  The scorer is replaced
+    by a stub (a surrogate model is not trained here); oracle only."""
+    import json
+    import os
+    import tempfile
+
+    import pandas as pd
+    from outrank import core_ranking as cr
+    for c in cases:
+        ctx.evaluations += 1
+        ctx.count('reference-model-with-prior-heuristic')
+        r = pyrandom.Random(c['dseed'])
+        names = c['names']
+        df = pd.DataFrame({nm: [r.choice(['a', 'b', 'c', '1']) for _ in range(c['nrows'])] for nm in names})
+        fd, path = tempfile.mkstemp(suffix='.json', prefix='c06ref_')
+        os.close(fd)
+        orig = cr.get_importances_estimate_pairwise
+        try:
+            with open(path, 'w') as fh:
+                json.dump({'desc': {'features': list(c['ref'])}}, fh)
+            cr.GLOBAL_PRIOR_COMB_COUNTS.clear()
+            pyrandom.seed(c['dseed'])
+            show = (f'columns={names} label={c["label"]!r} target_only={c["target_only"]} heuristic={c["heuristic"]} reference model features {c["ref"]} '
+                    f'caps={c["caps"]}')
+            total = Counter()
+            for k, cap in enumerate(c['caps']):
+                args = types.SimpleNamespace(heuristic=c['heuristic'], label_column=c['label'], target_ranking_only='True' if c['target_only'] else 'False',
+                                             combination_number_upper_bound=cap, reference_model_JSON=path, mi_stratified_sampling_ratio=1.0)
+                spy = []
+
+                def scorer(combination, *a, **kk):
+                    spy.append(tuple(combination))
+                    return combination[0], combination[1], 0.5
+                cr.get_importances_estimate_pairwise = scorer
+                combos = [tuple(x) for x in cr.get_combinations_from_columns(pd.Index(names), args)]
+                eligible = [p for p in combos if p[0] not in c['ref'] and p[1] not in c['ref']]
+                try:
+                    out = cr.mixed_rank_graph(df, args, SyncPool(1), PBar())
+                except Exception as e:   # noqa: BLE001
+                    ctx.oracle_fail('refmodel-raises', f'{show}: batch {k} raised {type(e).__name__}: {e}', {'refmodel': c})
+                    break
+                if not spy and out.triplet_scores:
+                    ctx.corr_fail('scorer-unobservable', f'{show}: rows came back but get_importances_estimate_pairwise was never called', {'refmodel': c})
+                    break
+                ev = Counter(spy)
+                total += ev
+                want = min(cap, len(eligible))
+                bad = None
+                if any(p not in eligible for p in ev):
+                    bad = f'pair {next(p for p in ev if p not in eligible)} was scored although it involves a reference-model feature / was not requested'
+                elif sum(ev.values()) != want:
+                    bad = f'{sum(ev.values())} pairs were scored, min(cap, #candidates) = min({cap}, {len(eligible)}) = {want}'
+                else:
+                    cnt = {kk: v for kk, v in cr.GLOBAL_PRIOR_COMB_COUNTS.items() if v}
+                    if cnt != dict(total):
+                        extra = [kk for kk in cnt if cnt[kk] != total.get(kk, 0)][:3]
+                        bad = f'the sampler counts {[(kk, cnt[kk]) for kk in extra]} do not match the pairs scored so far ({[(kk, total.get(kk, 0)) for kk in extra]})'
+                if bad:
+                    ctx.oracle_fail('refmodel-candidates', f'{show}: batch {k} (cap {cap}): {bad}', {'refmodel': c})
+                    break
+            else:
+                if len(c['caps']) >= 2:
+                    ctx.nontrivial.add(('refmodel', tuple(names), tuple(c['ref']), tuple(c['caps'])))
+        finally:
+            cr.get_importances_estimate_pairwise = orig
+            cr.GLOBAL_PRIOR_COMB_COUNTS.clear()
+            os.unlink(path)
+
+
+def gen_refmodel(rng):
+    names = rng.sample(['f0', 'f1', 'f2', 'f3', 'f4', 'f5', 'g'], rng.choice([3, 4, 5, 6])) + ['label']
+    rng.shuffle(names)
+    feats = [n for n in names if n != 'label']
+    ref = rng.sample(feats, rng.choice([1, 1, 2]))
+    to = rng.random() < 0.6
+    nel = len([f for f in feats if f not in ref]) if to else 5
+    return {'names': names, 'label': 'label', 'target_only': to, 'heuristic': rng.choice(['surrogate-SGD', 'surrogate-SVM', 'surrogate-SGD-RP']),
+            'ref': ref, 'caps': [rng.choice([1, 2, 3, max(1, nel - 1), nel, 100])] * rng.choice([1, 2, 3, 4]), 'nrows': rng.choice([6, 12]),
+            'dseed': rng.randrange(2 ** 31)}
+
+
 def make_frame(case):
     import pandas as pd
     r = pyrandom.Random(case['dseed'])
@@ -624,6 +708,7 @@ def run(ctx: Ctx):
     cases += [gen_clamp(ctx.rng) for _ in range(4 if ctx.thorough() else 1)]
     cases += [gen_wide(ctx.rng) for _ in range(12 if ctx.thorough() else 3)]
     evaluate(ctx, cases)
+    evaluate_refmodel(ctx, [gen_refmodel(ctx.rng) for _ in range(1500 if ctx.thorough() else 150)])
 
 
 def search(ctx: Ctx):
@@ -631,4 +716,13 @@ def search(ctx: Ctx):
     sub = Ctx(ctx.prop, ctx.tier)
     sub.rng.seed(f'search:{ctx.seed}')
     evaluate(sub, with_family_switches(sub.rng, [gen_case(sub.rng, True, kind='graph') for _ in range(1500)]) + [gen_wide(sub.rng) for _ in range(6)], oracle_only=True)
+    evaluate_refmodel(sub, [gen_refmodel(sub.rng) for _ in range(800)])
     return sub.oracle_failures
+
+
+def replay(ctx: Ctx, payload):
+    c = payload['case']
+    if isinstance(c, dict) and 'refmodel' in c:
+        evaluate_refmodel(ctx, [c['refmodel']])
+    else:
+        evaluate(ctx, [c])
